@@ -411,3 +411,9 @@ m('C16-m3', 'C16', W + 'worterbuch.rs', """        if !self.deleted_buffer.is_em
 m('C03-m5', 'C03', W + 'server/common/protocol/v0.rs', 'let live_only = msg.live_only.unwrap_or(false);', 'let live_only = msg.live_only.unwrap_or(true);', 'C03.j')
 m('C13-m4', 'C13', W + 'server/common/protocol/mod.rs', """                            v0.process_incoming_message(msg, authorized).await?;""", """                            let _ = (&v0, &msg);""", 'C13.h')
 m('C09-m4', 'C09', W + 'worterbuch.rs', '                        lws.push(kvp);', '                        let _ = kvp;', 'C09.h')
+m('C18-m3', 'C18', W + 'persistence/redb/mod.rs', """    table.remove(key)?;
+    batch_process(rx, next_action, table)?;""", """    table.remove(key).ok();
+    batch_process(rx, next_action, table)?;""", 'C18.g')
+m('C13-m5', 'C13', W + 'lib.rs', """            tx.send(worterbuch.get(&key)).ok();""", """            let _ = (tx, worterbuch.get(&key));""", 'C13.i')
+m('C14-m4', 'C14', 'worterbuch-client/src/tcp.rs', """            error!("Error sending TCP message: {e}");
+            break;""", """            error!("Error sending TCP message: {e}");""", 'C14.e')
